@@ -12,6 +12,7 @@
   blow-up / NaN / discontinuous / stiff problems on all six methods under a work budget.
 -/
 import IvpModel.Proofs.CtlField
+import IvpModel.Proofs.RadauNumLemmas
 
 namespace Ctl
 variable {α : Type} [Num α] {n : Nat}
@@ -105,3 +106,8 @@ theorem dop853Params_underflow (L : HLits K) (xend posneg uround safety smin sma
 
 end
 end Ctl
+
+/-- Radau: a NaN error estimate is replaced by +∞ before the acceptance test, in every number system (so a step whose
+    estimate is NaN is never accepted; `Model/RadauNum.lean`, tied by X-radaunum) -/
+theorem c04_radau_nan_estimate {α : Type} [Num α] (L : RadauNum.NLits α) (e : α) (h : Num.isNaN e = true) :
+    RadauNum.errGuard L e = L.inf := RadauNum.errGuard_nan L e h
